@@ -1,6 +1,10 @@
 import GoPipeline.Model.Val
 import GoPipeline.Driver.C05
 import GoPipeline.Driver.C15
+import GoPipeline.Driver.C11
+import GoPipeline.Driver.C12
+import GoPipeline.Driver.C17
+import GoPipeline.Driver.C18
 open GoPipeline
 
 /-- Generic stateful line loop. -/
@@ -25,6 +29,10 @@ def main (args : List String) : IO UInt32 := do
   | ["echo"] => loop echoStep inp out ()
   | ["c05"] => loop DriverC05.step inp out {}
   | ["c15"] => loop DriverC15.step inp out ()
+  | ["c11"] => loop DriverC11.step inp out none
+  | ["c12"] => loop DriverC12.step inp out ()
+  | ["c17"] => loop DriverC17.step inp out ()
+  | ["c18"] => loop DriverC18.step inp out ()
   | _ => do IO.eprintln "usage: driver <mode>"; return 2
   out.flush
   return 0
